@@ -262,21 +262,26 @@ Fixpoint c15_obj_addcol (i : nat) (col : Z) (o : c15_objs) : c15_objs :=
 
 (* a step of a history: a Grid-level call (None), or a UxDataArray-level call for variable `var`.
    writes: UxDataArray.to_geodataframe assigns gdf[var] on the frame it received;
-   UxDataArray.to_polycollection calls set_array on the collection it received *)
-Definition c15_step (sp : c15_spec) (writes : bool) (so : c15_state * c15_objs) (call : option Z * c15_args)
+   UxDataArray.to_polycollection calls set_array on the collection it received.
+   copies: the UxDataArray-level method copies the received object before writing into it *)
+Definition c15_step (sp : c15_spec) (writes copies : bool) (so : c15_state * c15_objs) (call : option Z * c15_args)
   : c15_state * c15_objs * nat :=
   let '(st, objs) := so in
   let '(built, id, st') := c15_call sp st (snd call) in
   let objs1 := match c15_obj_get id objs with Some _ => objs | None => (id, (built, [])) :: objs end in
-  let objs2 := match fst call with
-               | Some var => if writes then c15_obj_addcol id var objs1 else objs1
-               | None => objs1
-               end in
-  (st', objs2, id).
+  match fst call with
+  | Some var =>
+      if copies then
+        let id2 := s_next st' in
+        ({| s_obj := s_obj st'; s_keys := s_keys st'; s_tables := s_tables st'; s_next := S id2 |},
+         (id2, (built, if writes then [var] else [])) :: objs1, id2)
+      else (st', if writes then c15_obj_addcol id var objs1 else objs1, id)
+  | None => (st', objs1, id)
+  end.
 
-Definition c15_steps (sp : c15_spec) (writes : bool) (so : c15_state * c15_objs) (hist : list (option Z * c15_args))
+Definition c15_steps (sp : c15_spec) (writes copies : bool) (so : c15_state * c15_objs) (hist : list (option Z * c15_args))
   : c15_state * c15_objs :=
-  fold_left (fun s c => fst (c15_step sp writes s c)) hist so.
+  fold_left (fun s c => fst (c15_step sp writes copies s c)) hist so.
 
 (* ---------------------------------------------------------------- the three machines as found in the source *)
 Definition c15_sp_gdf : c15_spec :=
@@ -299,5 +304,6 @@ Definition c15_sp_of (meth : Z) : c15_spec :=
   if meth =? 1 then c15_sp_gdf else if meth =? 2 then c15_sp_poly else c15_sp_line.
 Definition c15_writes_of (meth : Z) : bool :=
   if meth =? 1 then c15_da_gdf_writes_column else if meth =? 2 then true else false.
+Definition c15_copies_of (meth : Z) : bool := if meth =? 1 then c15_da_gdf_copies else false.
 Definition c15_reads_of (meth : Z) : list Z :=
   if meth =? 1 then c15_gdf_read_tables else if meth =? 2 then c15_poly_read_tables else c15_line_read_tables.
